@@ -272,7 +272,7 @@ def oracle(case, obs):
 # ----- generation -------------------------------------------------------------------------------------------
 
 LINES = [b".", b".", b"..", b"...", b".a", b"a.", b"", b"", b"QUIT", b"RSET", b"Subject: x", b"a:b", b"body", b".:",
-         b"\x00", b"\xff.", b" .", b"x" * 5]
+         b"\x00", b"\xff.", b" .", b"\t.", b" . ", b"x" * 5]
 
 
 def _body(rng):
